@@ -144,7 +144,8 @@ class Coupled:
             self.inter = sps.CosseratRodFlowInteraction(cosserat_rod=self.body, eul_grid_forcing_field=self.sim.eul_grid_forcing_field,
                                                         eul_grid_velocity_field=self.sim.velocity_field, virtual_boundary_stiffness_coeff=-30.0,
                                                         virtual_boundary_damping_coeff=-1.5, dx=self.sim.dx, grid_dim=3,
-                                                        forcing_grid_cls=sps.CosseratRodElementCentricForcingGrid)
+                                                        forcing_grid_cls=sps.CosseratRodSurfaceForcingGrid,
+                                                        surface_grid_density_for_largest_element=6)
             self.U = np.array([0.4, 0.0, -0.1])
         # a non-trivial initial flow
         om = self.sim.vorticity_field
@@ -153,7 +154,7 @@ class Coupled:
             om[core_] = rng.normal(size=om[core_].shape)
         else:
             om[(slice(None),) + core_] = rng.normal(size=om[(slice(None),) + core_].shape)
-        self.dt = 0.01
+        self.dt = 0.05
 
     def step(self, poison_rng=None):
         if poison_rng is not None:
@@ -165,13 +166,19 @@ class Coupled:
         self.inter()
         self.sim.time_step(dt=self.dt, free_stream_velocity=self.U)
         self.inter.time_step(dt=self.dt)
-        # prescribed body motion (the harness plays the structural solver)
+        # prescribed body motion (the harness plays the structural solver): translation AND rotation of every director frame
+        from .c09 import rodrigues
+
         self.body.position_collection[...] += self.dt * self.body.velocity_collection
+        for i in range(self.body.director_collection.shape[2]):
+            Q = self.body.director_collection[:, :, i].copy()
+            w_lab = Q.T @ self.body.omega_collection[:, i]
+            self.body.director_collection[:, :, i] = Q @ rodrigues(w_lab, self.dt).T
 
     def public(self):
         return {"vorticity": self.sim.vorticity_field.copy(), "velocity": self.sim.velocity_field.copy(), "time": float(self.sim.time),
                 "pm": self.inter.lag_grid_position_mismatch_field.copy(), "vm": self.inter.lag_grid_velocity_mismatch_field.copy(),
-                "body_x": self.body.position_collection.copy(), "ftime": float(self.inter.time)}
+                "body_x": self.body.position_collection.copy(), "body_q": self.body.director_collection.copy(), "ftime": float(self.inter.time)}
 
     def ios(self):
         import sopht.utils as spu
